@@ -54,6 +54,13 @@ func (ts *ThresholdSigner) Unmarshal(bytes []byte) error {
 		return err
 	}
 
+	if pbThresholdSigner.MemberIndex > group.MaxMemberIndex {
+		return fmt.Errorf(
+			"invalid member index value: [%v]",
+			pbThresholdSigner.MemberIndex,
+		)
+	}
+
 	groupPublicKey := new(bn256.G2)
 	_, err := groupPublicKey.Unmarshal(pbThresholdSigner.GroupPublicKey)
 	if err != nil {
@@ -88,6 +95,13 @@ func unmarshalGroupPublicKeyShares(
 	var unmarshalled = make(map[group.MemberIndex]*bn256.G2, len(shares))
 
 	for memberID, shareBytes := range shares {
+		if memberID > group.MaxMemberIndex {
+			return nil, fmt.Errorf(
+				"invalid member index value: [%v]",
+				memberID,
+			)
+		}
+
 		share := new(bn256.G2)
 		_, err := share.Unmarshal(shareBytes)
 		if err != nil {
